@@ -264,13 +264,8 @@ func extLogNop(fr *frame, a []value) value { return iface{} }
 // condExternals: functions summarised only when an operand is symbolic
 // (formatting of symbolic times for log messages); concrete calls run the real code.
 var condExternals = map[string]func(fr *frame, a []value) (value, bool){
-	"(time.Time).Format": func(fr *frame, a []value) (value, bool) {
-		if isSymbolic(a[0]) {
-			fr.i.noteEnv("formatting of a symbolic time rendered as <time> (log text)")
-			return "<time>", true
-		}
-		return nil, false
-	},
+	// (time.Time).Format is NOT summarised here: date rules compute with it. Harnesses
+	// whose code formats symbolic times only for log text stub it themselves.
 	"(time.Time).String": func(fr *frame, a []value) (value, bool) {
 		if isSymbolic(a[0]) {
 			return "<time>", true
